@@ -84,6 +84,8 @@ def check_sift(ctx, case):
     if not finite_shape(ctx, 'sift', base, len(x), None, case):
         return
     K = base.shape[1]
+    if K > np.log2(len(x)) + 1:
+        ctx.count('uncapped_sifts_with_more_components_than_log2_samples')
     # (i) peel
     for k in (range(K) if K <= 30 else list(range(10)) + list(range(K - 10, K))):
         resid = x[:, None] - base[:, :k].sum(axis=1)[:, None]
@@ -275,6 +277,11 @@ def gen_case(rng, variant):
     light = variant != 'sift'
     kind, x = base_signal(rng, 400 if variant == 'sift' else 200)
     io, eo, xo = opts(rng, light)
+    if variant == 'sift' and rng.random() < .12:
+        # deliberate over-sifting of a broadband recording: many more components than log2(samples)
+        kind, x = 'noise-oversifted', rng.standard_normal(int(gens.pick(rng, [64, 130, 264])))
+        io = {'stop_method': 'fixed', 'max_iters': int(gens.pick(rng, [50, 120, 300]))}
+        eo = {'interp_method': 'splrep'}
     if eo['interp_method'] != 'splrep':
         x = x[:150]
     r0 = rng.random()
